@@ -35,6 +35,7 @@ DEFAULT_PROFILE = {
     "p_wide_radii": 0.1,
     "p_mutating_functions": 0.08,
     "p_no_options": 0.04,
+    "p_soc_bias": 0.0,
     "force_n": None,
     "p_narrow_box": 0.0,
     "maxfev_hi": 90,
@@ -435,6 +436,17 @@ def gen_statement(rng, prof=None):
         if rng.chance(prof["p_mutating_functions"]):
             ns["mutates"] = True
     stmt["nonlinear"] = nl
+    if rng.chance(prof.get("p_soc_bias", 0.0)) and stmt["obj"] is not None:
+        # second-order-correction steps need strongly curved constraints, an infeasible start and a large radius
+        fam = rng.pick(["ball", "product", "sine", "ellipsoid"])
+        cs = gen_family(rng, fam, n)
+        if fam in ("ball", "ellipsoid"):
+            cs["r"] = rng.pick([0.5, 1.0])
+        eq = rng.chance(0.6)
+        nl.append({"form": "nlc", "comps": [cs], "lb": [0.0 if eq else -math.inf], "ub": [0.0], "ret": "ndarray"})
+        stmt["nonlinear"] = nl
+        stmt["x0"] = [v + rng.pick([-3.0, -2.0, 2.0, 3.0]) for v in stmt["x0"]] if b is None else stmt["x0"]
+        stmt["_soc_bias"] = True
     if len(lin) + len(nl) > 1 and rng.chance(0.4):
         # interleave linear and nonlinear objects
         order = list(range(len(lin) + len(nl)))
@@ -449,6 +461,10 @@ def gen_statement(rng, prof=None):
     else:
         stmt["callback"] = None
     stmt["options"] = gen_options(rng, stmt, prof)
+    if stmt.pop("_soc_bias", False):
+        stmt["options"]["radius_init"] = rng.pick([1.0, 2.0, 5.0])
+        stmt["options"]["radius_final"] = min(stmt["options"].get("radius_final", 1e-3), 1e-2)
+        stmt["options"]["maxfev"] = max(stmt["options"].get("maxfev", 60), 60)
     if want_scale:
         stmt["options"]["scale"] = True
     if rng.chance(0.1):
